@@ -17,7 +17,7 @@ import (
 )
 
 // query kinds
-var kinds = []string{"projection", "analytic-select", "analytic-where", "fnkey-counting", "join", "tumbling", "global", "unnest", "regexp-digits", "regexp-alpha"}
+var kinds = []string{"projection", "analytic-select", "analytic-where", "fnkey-counting", "join", "tumbling", "global", "unnest", "regexp-digits", "regexp-alpha", "array-fns", "literal-upper", "literal-lower", "column-upper", "column-lower"}
 
 type Side struct {
 	Kind string    `json:"kind"`
@@ -50,6 +50,16 @@ func sqlOf(kind string) string {
 	case "unnest":
 		// unnest over an array of objects next to other columns (expanded on the asynchronous path only)
 		return "SELECT id, s, unnest(objs) AS o FROM stream"
+	case "array-fns": // functions that build a new array from arrays nested in the caller's row
+		return "SELECT id, array_remove(arr, 'b') AS ar, array_distinct(arr) AS ad, array_union(arr, arr2) AS au, array_except(d.arr, arr2) AS ae, array_intersect(arr, arr2) AS ai FROM stream"
+	case "literal-upper": // literal-upper / literal-lower differ only in the case of a letter inside a string literal
+		return "SELECT id, concat(s, '_A') AS r, upper(k) AS uk FROM stream"
+	case "literal-lower":
+		return "SELECT id, concat(s, '_a') AS r, upper(k) AS uk FROM stream"
+	case "column-upper": // column-upper / column-lower differ only in the case of a column name (K and k are two columns)
+		return "SELECT id, concat(K, '-') AS r FROM stream"
+	case "column-lower":
+		return "SELECT id, concat(k, '-') AS r FROM stream"
 	case "regexp-digits":
 		return "SELECT id, regexp_replace(s, '[0-9]+', '#') AS r, upper(k) AS uk FROM stream"
 	case "regexp-alpha":
@@ -59,8 +69,11 @@ func sqlOf(kind string) string {
 	}
 }
 
+// twinOf: kinds whose SQL differs from their twin's only in letter case
+var twinOf = map[string]string{"literal-upper": "literal-lower", "literal-lower": "literal-upper", "column-upper": "column-lower", "column-lower": "column-upper"}
+
 func syncable(kind string) bool {
-	return kind == "projection" || kind == "analytic-select" || kind == "analytic-where" || kind == "join" || kind == "regexp-digits" || kind == "regexp-alpha"
+	return kind == "projection" || kind == "analytic-select" || kind == "analytic-where" || kind == "join" || kind == "regexp-digits" || kind == "regexp-alpha" || kind == "array-fns" || twinOf[kind] != ""
 }
 
 func genRows(t *rapid.T, label string, typed int) []gen.Row {
@@ -106,6 +119,9 @@ func genCase(t *rapid.T) Case {
 		if rapid.Bool().Draw(t, "sameSQL") {
 			b.Kind = c.A.Kind
 		}
+		if tw := twinOf[c.A.Kind]; tw != "" && rapid.IntRange(0, 3).Draw(t, "twin") > 0 {
+			b.Kind = tw
+		}
 		b.Sync = syncable(b.Kind) && rapid.Bool().Draw(t, "syncB")
 		c.B = &b
 		na, nb := len(c.A.Rows), len(b.Rows)
@@ -129,10 +145,30 @@ func genCase(t *rapid.T) Case {
 
 func engineRow(kind string, r gen.Row, i int) map[string]any {
 	m := map[string]any{"id": r["id"].Go(), "s": r["s"].Go(), "k": r["k"].Go()}
+	if kind == "array-fns" {
+		base := []any{"a", "b", "c", "b", "d", "a", "e"}
+		mk := func(off, n int) []any {
+			out := make([]any, 0, n)
+			for j := 0; j < n; j++ {
+				out = append(out, base[(off+j)%len(base)])
+			}
+			return out
+		}
+		m["arr"] = mk(i%5, 2+i%4)
+		m["arr2"] = mk((i+3)%7, 1+i%3)
+		m["darr"] = mk((i+1)%5, 3+i%3) // moved under d below
+	}
+	if kind == "column-upper" || kind == "column-lower" {
+		m["K"] = "UP-" + r["s"].S // another column than k
+	}
 	if !r["a"].IsMissing() {
 		m["a"] = r["a"].Go()
 	}
 	m["d"] = map[string]any{"x": r["dx"].Go(), "l": r["dl"].Go(), "m": map[string]any{"deep": []any{1, "two"}}}
+	if da, ok := m["darr"]; ok {
+		m["d"].(map[string]any)["arr"] = da
+		delete(m, "darr")
+	}
 	if kind == "unnest" {
 		m["objs"] = []any{map[string]any{"p": i, "q": "a"}, map[string]any{"p": i + 1, "q": "b"}}
 	}
@@ -323,6 +359,8 @@ func solo(side Side, rep int, label string, res *pbt.Result) (string, bool) {
 }
 
 func runCase(c Case) (res pbt.Result) {
+	// "alone" means alone in the process: the expression bridge's process-wide caches start empty for every run
+	run.ResetExprCaches()
 	soloA, ok := solo(c.A, c.Repeat, "A alone", &res)
 	if !ok {
 		return
@@ -333,11 +371,13 @@ func runCase(c Case) (res pbt.Result) {
 		res.NonTrivial = derived
 		return
 	}
+	run.ResetExprCaches()
 	soloB, ok := solo(*c.B, c.Repeat, "B alone", &res)
 	if !ok {
 		return
 	}
 	res.Class("kind:" + c.B.Kind)
+	run.ResetExprCaches()
 	a := open(c.A.Kind, "A paired", &res)
 	b := open(c.B.Kind, "B paired", &res)
 	if a == nil || b == nil {
@@ -389,6 +429,9 @@ func runCase(c Case) (res pbt.Result) {
 	if c.A.Kind == c.B.Kind {
 		res.Class("same-sql")
 	}
+	if twinOf[c.A.Kind] == c.B.Kind {
+		res.Class("sql-differs-in-case-only")
+	}
 	res.NonTrivial = derived || c.B.Kind == "analytic-select" || c.B.Kind == "analytic-where" || c.B.Kind == "fnkey-counting" || c.A.Kind == c.B.Kind
 	return
 }
@@ -412,7 +455,7 @@ func features(c Case) []string {
 
 var spec = pbt.Spec[Case]{
 	ID:   "C20",
-	Rule: "generated: one or two instances from {projection, analytic in SELECT, analytic in WHERE, function-expression group key over a counting window, stream-table JOIN, event-time tumbling, global window}, rows with nested maps and slices and int/float/mixed typing per instance, Emit or EmitSync, an arbitrary interleaving of the two inputs from one goroutine or two concurrent producers; built with -race. oracle: (a) every map passed to Emit/EmitSync is deep-equal to a copy taken before, after the row's effects were observed (sentinel barrier); (b) rows handed to the sink are deep-equal to copies taken on receipt at the end of the run; (c) each instance delivers exactly the sequence it delivers when run alone on the same input. non-trivial = the query writes derived values (analytic, function group key) or both instances share the SQL text; distinct by case hash",
+	Rule: "generated: one or two instances from {projection, analytic in SELECT, analytic in WHERE, function-expression group key over a counting window, stream-table JOIN, event-time tumbling, global window, unnest, regexp_replace with two patterns, and pairs of queries that differ only in the letter case of a string literal or of a column name}, every run starting from empty process-wide expression caches (alone = alone in the process), rows with nested maps and slices and int/float/mixed typing per instance, Emit or EmitSync, an arbitrary interleaving of the two inputs from one goroutine or two concurrent producers; built with -race. oracle: (a) every map passed to Emit/EmitSync is deep-equal to a copy taken before, after the row's effects were observed (sentinel barrier); (b) rows handed to the sink are deep-equal to copies taken on receipt at the end of the run; (c) each instance delivers exactly the sequence it delivers when run alone on the same input. non-trivial = the query writes derived values (analytic, function group key) or both instances share the SQL text; distinct by case hash",
 	Assumptions: []string{"processing-time window bounds (window_id/start/end of counting and global windows) are wall-clock and excluded from the solo/paired comparison", "rows of one batch are compared as a multiset (group order inside a batch is unspecified)"},
 	Gen:      genCase,
 	Run:      runCase,
